@@ -1537,7 +1537,7 @@ CLAUSE_OF = {     # obligation-name fragment -> clause name checked by the nativ
 
 def battery_replay(name, rec):
     """directed native search: the end-to-end battery on the real optimizer; reproduced iff the clause this obligation feeds fails."""
-    finish_witnesses()
+    finish_standins()
     for frag, sn in (('continuous_in_unit_cube', 'standin_in_cube_any_prior'), ('pool_continuous', 'standin_in_cube_any_prior'),
                      ('evaluation_budget', 'standin_no_placeholder'), ('no_placeholder', 'standin_no_placeholder'),
                      ('evaluated_after', 'standin_no_placeholder'), ('reward_is_score_of_candidate', 'standin_no_placeholder')):
@@ -1729,51 +1729,68 @@ def witness_name(f):
     return args[1] if len(args) > 1 and args[0] == 'witness' else None
 
 
-def start_witnesses(chk):
-    names = sorted({witness_name(f) for f in chk.findings if f.get('status', 'open') == 'open' and witness_name(f)}) + sorted(STANDINS)
+def _spawn(names):
     env = dict(os.environ)
     env['VERIF_REPO'] = source.REPO
-    return subprocess.Popen([VENV_PY, REPLAY, 'witness'] + names, stdout=subprocess.PIPE, stderr=subprocess.PIPE, text=True, env=env, cwd=VERIF), names
+    return subprocess.Popen([VENV_PY, REPLAY, 'witness'] + list(names), stdout=subprocess.PIPE, stderr=subprocess.PIPE, text=True, env=env, cwd=VERIF)
+
+
+def _join(proc, timeout=3600):
+    """-> dict of the driver's JSON line, {} when the subprocess failed / timed out (never a verdict)."""
+    if proc is None:
+        return {}
+    try:
+        out, err = proc.communicate(timeout=timeout)
+    except subprocess.TimeoutExpired:
+        proc.kill()
+        return {}
+    for line in reversed((out or '').strip().splitlines()):
+        if line.startswith('{'):
+            try:
+                return json.loads(line)
+            except ValueError:
+                return {}
+    return {}
 
 
 WPROC = {}
 
 
-def finish_witnesses(proc=None, names=None):
-    """join the native witness / stand-in subprocess (idempotent; also called by the first replay that needs its results)."""
-    if proc is None and names is None:
-        if WPROC.get('done') or 'proc' not in WPROC:
-            return
-        proc, names = WPROC['proc'], WPROC['names']
-    if WPROC.get('done'):
-        return
-    WPROC['done'] = True
+def start_witnesses(chk):
+    """three native subprocesses in parallel: the witnesses of the open findings; the stand-ins (two groups)."""
+    names = sorted({witness_name(f) for f in chk.findings if f.get('status', 'open') == 'open' and witness_name(f)})
+    WPROC.clear()
+    WPROC.update({'names': names, 'findings': _spawn(names) if names else None,
+                  'standins': [(g, _spawn(g)) for g in (['standin_eagle_priors'], ['standin_no_placeholder', 'standin_in_cube_any_prior'])]})
     WITNESS.clear()
     STANDIN_RES.clear()
     UNVERIFIED.clear()
     _NOTED.clear()
-    for n in names:
+    return WPROC['findings'], names
+
+
+def finish_witnesses(proc=None, names=None):
+    """join the subprocess replaying the witnesses of the open findings (idempotent)."""
+    if WPROC.get('findings_done') or 'names' not in WPROC:
+        return
+    WPROC['findings_done'] = True
+    for n in WPROC['names']:
         WITNESS[n] = None
-    if proc is None:
+    res = _join(WPROC['findings'])
+    for n in WPROC['names']:
+        r = res.get(n)
+        if isinstance(r, dict) and isinstance(r.get('reproduced'), bool):
+            WITNESS[n] = r['reproduced']
+
+
+def finish_standins():
+    if WPROC.get('standins_done') or 'standins' not in WPROC:
         return
-    try:
-        out, err = proc.communicate(timeout=3600)
-    except subprocess.TimeoutExpired:
-        proc.kill()
-        return
-    for line in reversed((out or '').strip().splitlines()):
-        if line.startswith('{'):
-            try:
-                res = json.loads(line)
-            except ValueError:
-                break
-            for n in names:
-                r = res.get(n)
-                if isinstance(r, dict) and isinstance(r.get('reproduced'), bool):
-                    WITNESS[n] = r['reproduced']
-                if n in STANDINS:
-                    STANDIN_RES[n] = r
-            break
+    WPROC['standins_done'] = True
+    for group, proc in WPROC['standins']:
+        res = _join(proc)
+        for n in group:
+            STANDIN_RES[n] = res.get(n)
 
 
 def active_finding(chk, name):
@@ -1901,8 +1918,6 @@ def main(tier):
                                  'value-class abstract interpretation with z3-derived transformers; determinism by read-frame analysis; open '
                                  'obligations are decided on concrete shapes (quantifier-free, loops unrolled) and replayed natively')
     wproc, wnames = start_witnesses(chk)
-    WPROC.clear()
-    WPROC.update({'proc': wproc, 'names': wnames})
     proc = start_conformance(tier)
     for t in J.TRUST:
         chk.trust(t)
@@ -1964,7 +1979,6 @@ def main(tier):
     frame_obligations(chk)
     # ---- recorded findings count only if listed open AND reproduced natively on the current tree
     finish_witnesses(wproc, wnames)
-    standins(chk)
     for thunk in INIT_FULL:
         thunk()
     del INIT_FULL[:]
@@ -2019,6 +2033,8 @@ def main(tier):
     chk.note('The symbolic results are functions of the PRNG key: jax.random.split/uniform/laplace are modelled as functions of their key, and '
              'every key consumed is shown to derive from the seed argument (randomness_only_from_seed); together with the read-frame obligations '
              'this is the "same seed, same candidates" clause. ')
+    finish_standins()
+    standins(chk)
     finish_conformance(chk, proc, tier)
     if not quick:
         res = run_native(REPLAY, ['battery'], timeout=7200)
